@@ -594,6 +594,7 @@ func runC18(ctx *core.Ctx) {
 	c18Rename(ctx)
 	c18Canon(ctx)
 	c18Glue(ctx)
+	c18Line(ctx)
 	c18Coverage(ctx)
 }
 
